@@ -240,6 +240,8 @@ func init() {
 		in.h.Intrinsics["stub:"+name] = true
 		return nil
 	})
+	// StubNative: the same redirect; natively the instrumented copy of the function calls the stub too
+	intrinsics[rtPkg+"StubNative"] = intrinsics[rtPkg+"Stub"]
 	reg(rtPkg+"Now", func(in *Interp, fr *frame, args []value) value { return in.timeNow() })
 	reg(rtPkg+"ClockRange", func(in *Interp, fr *frame, args []value) value {
 		in.clockLo, in.clockHi = args[0].(*Term), args[1].(*Term)
